@@ -70,13 +70,32 @@ def monitor (wt : Bool) (backendUp : Bool) (mon : Mon) (args impl : List String)
   let res := impl.headD ""
   let mon := match args with
     | ["evict", t] => if res = "ok" then { mon with evicted := t :: mon.evicted } else mon
-    | ["put", t, d, _] => { mon with putFor := (t, d) :: mon.putFor }
+    | ["put", t, d, _] | ["put", t, d, _, _] | ["dupput", t, d, _] => { mon with putFor := (t, d) :: mon.putFor }
     | _ => mon
   let reput (t : String) : Bool := t ∈ mon.evicted ∧ ((mon.putFor.filter (·.1 = t)).map (·.2)).eraseDups.length > 1
   let key (t : String) (k : String) : String := if reput t then "evicted-tag-reput-keeps-old-backend-digest" else k
   -- bookkeeping of this op
+  -- PUT ?replicate=true: the replication tasks the server handed to the replication manager
+  let pfRep : List String := match args with
+    | ["put", t, d, deps, "rep=1"] =>
+      let n := (list? ((kv? [deps] "deps").getD "-")).length
+      let chk := list? ((kv? impl "chk").getD "-")
+      let tasks := (list? ((kv? impl "rt").getD "-")).map (·.splitOn ":")
+      let dests := if t = "t1" then ["ra", "rb"] else ["ra"]
+      if res ≠ "ok" then
+        (if tasks ≠ [] then [s!"side=impl key=replication-task-without-acknowledged-put PUT {t} was refused and replication tasks were created: {tasks}"] else [])
+      else
+        (if chk.length ≠ n then [s!"side=impl key=put-without-dependency PUT {t} was acknowledged; the origin cluster was asked about {chk} of {n} dependencies"] else []) ++
+        (dests.filterMap fun r => if tasks.any (fun x => x.getD 3 "" = r) then none else
+          some s!"side=impl key=replication-task-missing PUT {t} with replicate=true was acknowledged and no task for remote {r} was created: {tasks}") ++
+        (tasks.filterMap fun x =>
+          let deps := if x.getD 2 "" = "none" then [] else (x.getD 2 "").splitOn "."
+          if x.getD 0 "" ≠ t ∨ x.getD 1 "" ≠ d then some s!"side=impl key=replication-task-for-another-tag PUT {t} {d} created the replication task {x}"
+          else if deps ≠ chk then some s!"side=impl key=replication-task-deps-differ-from-checked PUT {t}: the origin cluster confirmed {chk}, the replication task for {x.getD 3 ""} carries {deps}"
+          else none)
+    | _ => []
   let (mon, pf0) := match args with
-    | ["put", t, _, deps] =>
+    | "put" :: t :: _ :: deps :: _ =>
       let answers := list? ((kv? [deps] "deps").getD "-")
       if res = "ok" then
         ({ mon with okPut := if t ∈ mon.okPut then mon.okPut else t :: mon.okPut },
@@ -86,6 +105,14 @@ def monitor (wt : Bool) (backendUp : Bool) (mon : Mon) (args impl : List String)
             [s!"side=impl key=acked-tag-not-resolvable PUT {t} was acknowledged and the node does not hold the tag"] else []) ++
          (if wt ∧ inb.lookup t ≠ disk.lookup t then
             [s!"side=impl key={key t "write-through-not-synchronous"} PUT {t} was acknowledged in write-through mode: backend {inb.lookup t} node {disk.lookup t}"] else []))
+      else (mon, [])
+    | ["dupput", t, _, _] =>
+      if res = "ok" then
+        ({ mon with okPut := if t ∈ mon.okPut then mon.okPut else t :: mon.okPut },
+         (if disk.lookup t = none then
+            [s!"side=impl key=acked-tag-not-resolvable duplicate PUT {t} was acknowledged and the node does not hold the tag"] else []) ++
+         (if wt ∧ inb.lookup t ≠ disk.lookup t then
+            [s!"side=impl key={key t "write-through-not-synchronous"} duplicate PUT {t} was acknowledged in write-through mode: backend {inb.lookup t} node {disk.lookup t}"] else []))
       else (mon, [])
     | ["get", t] =>
       if res = "notfound" ∨ res = "err" then
@@ -118,15 +145,14 @@ def monitor (wt : Bool) (backendUp : Bool) (mon : Mon) (args impl : List String)
     if written ∨ (!final ∧ !wt ∧ disk.lookup t ≠ none ∧ t ∈ tbl) then none
     else some (s!"side=impl key=acked-tag-not-written-back {t} has an acknowledged PUT; backend {inb.lookup t} node {disk.lookup t} " ++
       (if final then "after all write-back tasks ran" else s!"and no write-back task is stored {tbl}"))
-  (pf0 ++ pf1 ++ pf2 ++ pf3, mon)
+  (pfRep ++ pf0 ++ pf1 ++ pf2 ++ pf3, mon)
 
 def step' (s : St) (kind : String) (args impl : List String) : Option (St × StepOut) :=
   if kind ≠ "op" then none else
   let fin (s' : St) (obs : List String) (br : String) (final := false) : Option (St × StepOut) :=
     let (pfs, mon) := monitor s.m.writeThrough (s.fail == 0) s.mon args impl final
     some ({ s' with mon }, { obs := obs ++ dumpToks s'.m, branch := br, propfails := pfs })
-  match args with
-  | ["put", tt, dt, depst] => do
+  let putOp (tt dt depst : String) (rep : Bool) : Option (St × StepOut) := do
     let t ← idx? 't' tt
     let d ← idx? 'd' dt
     let deps ← (list? ((kv? [depst] "deps").getD "-")).mapM dep?
@@ -135,10 +161,32 @@ def step' (s : St) (kind : String) (args impl : List String) : Option (St × Ste
     let ups := (List.replicate s.fail false ++ [true, true, true]).take 3
     let (m1, o) := stepO s.m (.put t d deps ups)
     let usedFail := if s.m.writeThrough ∧ checkDeps deps = .ok then min s.fail 3 else 0
-    fin { s with m := settle m1, fail := s.fail - usedFail } [if o = .ok then "ok" else "err", s!"asked={asked}"]
-      (match o with
+    -- a storage error (write-through with the backend down) is answered before replicateTag
+    let rts := replicationTasks o t d (List.range deps.length) (if t = 1 then [0, 1] else [0])
+    let rtToks := rts.map fun (t', d', ds, r) =>
+      s!"t{t'}:d{d'}:{if ds = [] then "none" else ".".intercalate (ds.map fun i => s!"x{i}")}:{if r = 0 then "ra" else "rb"}:0"
+    let repObs := if rep then [s!"chk={listTok ((List.range asked).map fun i => s!"x{i}")}", s!"rt={listTok (ssort rtToks)}"] else []
+    fin { s with m := settle m1, fail := s.fail - usedFail } ([if o = .ok then "ok" else "err", s!"asked={asked}"] ++ repObs)
+      ((match o with
        | .ok => if lookup s.m.disk t = none then "put.ok.new" else "put.ok.existing"
-       | .missingDep => "put.missing" | .checkErr => "put.checkerr" | _ => "put.storage")
+       | .missingDep => "put.missing" | .checkErr => "put.checkerr" | _ => "put.storage") ++ (if rep then ".rep" else ""))
+  match args with
+  | ["put", tt, dt, depst] => putOp tt dt depst false
+  | ["put", tt, dt, depst, "rep=1"] => putOp tt dt depst true
+  | ["dupput", tt, dt, dlt] => do
+    let t ← idx? 't' tt
+    let d ← idx? 'd' dt
+    let h ← (kv? [dlt] "delay").bind nat?
+    let ups := (List.replicate s.fail false ++ [true, true, true]).take 3
+    let (m1, o) := stepO s.m (.dupPut t d (h * 1000) ups)
+    let usedFail := if s.m.writeThrough then min s.fail 3 else 0
+    fin { s with m := settle m1, fail := s.fail - usedFail } [if o = .ok then "ok" else "err"]
+      (match o with
+       | .ok => if s.m.writeThrough then "dupput.ok.write-through"
+                else if Retry.hasKey s.m.r.rows t then "dupput.ok.task-exists"
+                else if h = 0 then "dupput.ok.pending" else "dupput.ok.delayed"
+       | _ => "dupput.storage")
+  | ["adv"] => fin { s with m := TagStore.step s.m (.retry (.advance 3000)) } ["ok"] "adv"
   | ["get", tt] => do
     let t ← idx? 't' tt
     match out s.m (.get t (s.fail == 0)) with
